@@ -1223,6 +1223,11 @@ def extract_default(
     dict(id="scanend-digit-lookahead-dropped", kind=B, props=["C17"], expect="SCAN-END", edits=[("defaults_utils.py",
          """            and (idx == (sub_l_len - 1) or not (sub_l[idx + 1]).isdigit())
 """, "")]),
+    dict(id="scanend-either-mark-closes", kind=B, props=["C17", "C08", "C01"], expect="SCAN-END", edits=[("defaults_utils.py",
+         """            if ch == quote_mark:""", """            if ch in ("'", '"'):""")]),
+    dict(id="scanend-neutral-closing-test-reversed", kind=N, props=["C17", "C08"], expect="silent", edits=[("defaults_utils.py",
+         """            if ch == quote_mark:
+                quote_mark = None""", """            quote_mark = None if quote_mark == ch else quote_mark""")]),
     dict(id="scanend-depth-counter", kind=N, props=["C17", "C08"], expect="silent", edits=[("defaults_utils.py",
          """            and par["{"] == par["}"]
             and par["["] == par["]"]
@@ -1402,6 +1407,30 @@ Tokens""")]),
          """            sig_param.annotation.__name__
             if isinstance(sig_param.annotation, type)""", """            getattr(sig_param.annotation, "__qualname__")
             if isinstance(sig_param.annotation, type)""")]),
+    dict(id="livetype-name-of-anything-that-has-one", kind=B, props=["C19", "C07"], expect="LIVE-TYPE", edits=[("parser_utils.py",
+         """            sig_param.annotation.__name__
+            if isinstance(sig_param.annotation, type)
+            else "{!s}".format(sig_param.annotation)""", """            getattr(sig_param.annotation, "__name__", None)
+            or "{!s}".format(sig_param.annotation)""")]),
+    dict(id="livetype-neutral-isclass", kind=N, props=["C19", "C07"], expect="silent", edits=[("parser_utils.py",
+         """            sig_param.annotation.__name__
+            if isinstance(sig_param.annotation, type)
+            else "{!s}".format(sig_param.annotation)""", """            "{!s}".format(sig_param.annotation)
+            if not __import__("inspect").isclass(sig_param.annotation)
+            else sig_param.annotation.__name__""")]),
+    # ---- PARAM-KEPT (C07, C03)
+    dict(id="paramkept-return-type-popped-in-merge", kind=B, props=["C07", "C03"], expect="PARAM-KEPT", edits=[("parser_utils.py",
+         """    if "return_type" not in (target.get("returns") or iter(())):""",
+         """    if "return_type" in target["params"]:
+        target["returns"] = OrderedDict((("return_type", target["params"].pop("return_type")),))
+    if "return_type" not in (target.get("returns") or iter(())):""")]),
+    dict(id="paramkept-neutral-class-convention-in-helper", kind=N, props=["C07", "C03"], expect="silent", edits=[("parse.py",
+         """    if "return_type" in intermediate_repr["params"]:
+        intermediate_repr["returns"] = OrderedDict(
+            (("return_type", intermediate_repr["params"].pop("return_type")),)
+        )
+""", """    (lambda params: intermediate_repr.__setitem__("returns", OrderedDict((("return_type", params.pop("return_type")),))) if "return_type" in params else None)(intermediate_repr["params"])
+""")]),
     # ---- JOIN-SOURCE (C19)
     dict(id="joinsource-imports-glued", kind=B, props=["C19"], expect="JOIN-SOURCE", edits=[("gen.py",
          """            imports = "\\n".join(
